@@ -201,7 +201,7 @@ class Generator(Curve, Point):
         if gen_k is None:
             gen_k = deterministic_generate_k
         n = self._order
-        k = gen_k(n, secret_exponent, val)  # type: ignore[arg-type]
+        k = first_k = gen_k(n, secret_exponent, val)  # type: ignore[arg-type]
         while True:
             p1 = k * self
             r = p1[0] % n  # type: ignore[operator]
@@ -211,7 +211,10 @@ class Generator(Curve, Point):
                 if p1[0] > n:  # type: ignore[operator]
                     recid += 2
                 return r, s, recid
-            k += 1
+            # try the next candidate, staying inside [1, n-1] (k == n would be the point at infinity)
+            k = k % (n - 1) + 1  # type: ignore[operator]
+            if k == first_k:
+                raise ValueError("no k yields a valid signature")
 
     def sign(
         self,
